@@ -82,6 +82,9 @@ const (
 	vpConnWriteEAGAIN
 	vpConnWritePartial
 	vpConnRead
+	vpStreamCloseLoaded
+	vpPollGotStream
+	vpNLBeforeBacklogSend
 	vpPointCount
 )
 
